@@ -24,6 +24,7 @@ DOC = {
         "pairing of every interval with the axis of its own dimension."
     ),
     "rules": {
+        "C08-R6": "relations are applied before constraints (a relation whose source is constrained away must still act; retrieve_clps inverts exactly this order), weights are complete before use, and the flattened weight of a full model follows the layout of the flattened data (shared with C02-R2 and C03-R5)",
         "C08-R1": "IntervalItem.applies: no interval or no index => True; bounds swapped when reversed; `lower <= index <= upper` (closed at both ends); a list of intervals is their union",
         "C08-R2": "OnlyConstraint.applies is `not ZeroConstraint.applies`; ZeroConstraint does not override applies",
         "C08-R3": "get_axis_slice_from_interval orders the bounds, starts at 0 for an infinite lower bound and at the nearest point otherwise, stops at axis.size for an infinite upper bound and one past the nearest point otherwise",
@@ -410,9 +411,18 @@ def r5(ctx) -> None:
         ctx.ob("C08-R5", "_get_area/labels-of-same-position", ok, f, lab[0].stmt if lab else rng[0], "per-index label lists are taken at the same position")
 
 
+def r6(ctx) -> None:
+    """Interval items act through the shared preparation pipeline and layout (shared with C02-R2 and C03-R5)."""
+    from glint.rules import c02
+    from glint.rules import c03
+
+    c02.r2(ctx, rule="C08-R6")
+    c03.r5(ctx, rule="C08-R6", full_model_only=True)
+
+
 def check(ctx) -> None:
     for g in check.groups:
         g(ctx)
 
 
-check.groups = [r1_r2, r3, r4, r5]
+check.groups = [r1_r2, r3, r4, r5, r6]
